@@ -3,13 +3,13 @@ package main
 // C15: durations, instants, metadata round trips.
 
 import (
-	"strconv"
 	"bytes"
 	"encoding/base64"
 	"encoding/xml"
 	"fmt"
 	"math"
 	"reflect"
+	"strconv"
 	"strings"
 	"time"
 
@@ -120,7 +120,7 @@ func (c *Ctx) genC15() {
 		case 0:
 			d = c.rng.Int63n(sec) // pure sub-second
 		case 1:
-			d = c.rng.Int63n(100*sec)
+			d = c.rng.Int63n(100 * sec)
 		case 2:
 			d = c.rng.Int63n(100 * hr)
 		case 3:
@@ -298,7 +298,9 @@ func (c *Ctx) tParse(s string) {
 
 func (c *Ctx) genC15Instants() {
 	var ts []time.Time
-	date := func(y int, m time.Month, d, h, mi, s, ns int) time.Time { return time.Date(y, m, d, h, mi, s, ns, time.UTC) }
+	date := func(y int, m time.Month, d, h, mi, s, ns int) time.Time {
+		return time.Date(y, m, d, h, mi, s, ns, time.UTC)
+	}
 	// boundary classes: era and century borders, leap days, month ends, the epoch, the ends of the supported range
 	for _, y := range []int{1, 2, 4, 99, 100, 101, 399, 400, 401, 1599, 1600, 1601, 1899, 1900, 1901, 1969, 1970, 1971, 1999, 2000, 2001, 2023, 2024, 2025, 2099, 2100, 2101, 2399, 2400, 9998, 9999} {
 		for _, md := range [][2]int{{1, 1}, {1, 31}, {2, 28}, {2, 29}, {3, 1}, {4, 30}, {6, 30}, {7, 31}, {12, 31}} {
@@ -646,7 +648,7 @@ func (c *Ctx) entitiesFixpoint(es saml.EntitiesDescriptor) {
 func (c *Ctx) randEntities(depth int) saml.EntitiesDescriptor {
 	var es saml.EntitiesDescriptor
 	if c.chance(0.6) {
-		t := baseTime.Add(time.Duration(c.rng.Int63n(int64(1000*time.Hour)))).In(time.FixedZone("x", (c.rng.Intn(25)-12)*3600))
+		t := baseTime.Add(time.Duration(c.rng.Int63n(int64(1000 * time.Hour)))).In(time.FixedZone("x", (c.rng.Intn(25)-12)*3600))
 		if c.chance(0.5) {
 			t = t.Truncate(time.Millisecond).UTC()
 		}
@@ -677,13 +679,83 @@ func (c *Ctx) randEntities(depth int) saml.EntitiesDescriptor {
 	return es
 }
 
+// mdNorm: the model's one-generation normal form (Model/Metadata.lean: read (write v)) against the real
+// xml.Unmarshal(xml.Marshal(ed)), on the fields C15 names — entity ID, validity instant, cache duration, the endpoints of
+// the SP and IdP descriptors in document order, key descriptors
+func (c *Ctx) mdNorm(ed saml.EntityDescriptor) {
+	render := func(e *saml.EntityDescriptor) (eps []string, neps int, keys []string, nkeys int) {
+		one := func(indexed bool, binding, loc string, resp *string) {
+			r := []string{"-"}
+			if resp != nil {
+				r = []string{"+", encBytes([]byte(*resp))}
+			}
+			eps = append(eps, joinToks([]string{encBool(indexed), encStr(binding), encBytes([]byte(loc))}, r)...)
+			neps++
+		}
+		plain := func(x saml.Endpoint) {
+			var r *string
+			if x.ResponseLocation != "" {
+				v := x.ResponseLocation
+				r = &v
+			}
+			one(false, x.Binding, x.Location, r)
+		}
+		kd := func(k saml.KeyDescriptor) {
+			var certs []string
+			for _, x := range k.KeyInfo.X509Data.X509Certificates {
+				certs = append(certs, x.Data)
+			}
+			keys = append(keys, joinToks([]string{encStr(k.Use)}, encStrList(certs))...)
+			nkeys++
+		}
+		for _, d := range e.SPSSODescriptors {
+			for _, x := range d.AssertionConsumerServices {
+				one(true, x.Binding, x.Location, x.ResponseLocation)
+			}
+			for _, x := range d.SingleLogoutServices {
+				plain(x)
+			}
+			for _, k := range d.KeyDescriptors {
+				kd(k)
+			}
+		}
+		for _, d := range e.IDPSSODescriptors {
+			for _, x := range d.SingleSignOnServices {
+				plain(x)
+			}
+			for _, k := range d.KeyDescriptors {
+				kd(k)
+			}
+		}
+		return
+	}
+	eps, neps, keys, nkeys := render(&ed)
+	toks := joinToks([]string{encStr(ed.EntityID), encInt(ed.ValidUntil.Unix()), encInt(int64(ed.ValidUntil.Nanosecond())), encInt(int64(ed.CacheDuration)), fmt.Sprint(neps)}, eps, []string{fmt.Sprint(nkeys)}, keys)
+	impl := safely(func() string {
+		g1, err := xml.Marshal(ed)
+		if err != nil {
+			return "err"
+		}
+		var v1 saml.EntityDescriptor
+		if err := xml.Unmarshal(g1, &v1); err != nil {
+			return "err"
+		}
+		e1, n1, k1, nk1 := render(&v1)
+		return strings.Join(joinToks([]string{"ok", encStr(v1.EntityID), encInt(v1.ValidUntil.UnixMilli()), encInt(int64(v1.CacheDuration)), fmt.Sprint(n1)}, e1, []string{fmt.Sprint(nk1)}, k1), " ")
+	})
+	c.count("c15-mdnorm", strings.SplitN(impl, " ", 2)[0])
+	c.emitOneWay("mdnorm", toks, impl, "")
+}
+
 func (c *Ctx) genC15Metadata() {
 	n := 300
 	if !c.quick() {
 		n = 6000
 	}
 	for i := 0; i < n; i++ {
-		c.metadataFixpoint("generated", c.randEntityDescriptor(), false)
+		ed := c.randEntityDescriptor()
+		c.metadataFixpoint("generated", ed, false)
+		c.mdNorm(ed)
 	}
 	for i := 0; i < n/3; i++ {
 		c.entitiesFixpoint(c.randEntities(2))
